@@ -58,7 +58,11 @@ func (eng *Engine) configure() {
 			if label == "" {
 				label = "guarded"
 			}
-			eng.guarded[c] = &guardInfo{comp: c, short: comp, mutexComp: mc, rule: rule,
+			var mapType *types.Map
+			if ft := eng.ld.fieldTypeByShort(comp); ft != nil {
+				mapType, _ = ft.Underlying().(*types.Map)
+			}
+			eng.guarded[c] = &guardInfo{comp: c, short: comp, mutexComp: mc, rule: rule, mapType: mapType,
 				clause: &Clause{Kind: KRequires, Label: label + "." + comp, Tags: rule.Tags, File: rule.File, Line: rule.Line, Text: "held(" + rule.Mutex + ") at every access of " + comp}}
 		}
 	}
